@@ -126,7 +126,6 @@ func parentMain() {
 	}
 
 	root := vf.TempDir("c21")
-	defer os.RemoveAll(root)
 
 	var mu sync.Mutex
 	siteHits := map[string]*[3]int64{}
@@ -224,6 +223,8 @@ func parentMain() {
 			jb.Skip = idx + 1
 		}
 	})
+
+	os.RemoveAll(root) // (Finish exits the process: no defer)
 
 	// floors
 	r.Extra("inputs_total", inputs)
